@@ -1,6 +1,7 @@
 import Driver.IntDrv
 import Driver.CovDrv
 import Driver.ZwDrv
+import Driver.CliDrv
 /-! `zwmodel`: the executable side of the hand-written models.  One request per
     line on stdin, one or more answer lines on stdout. -/
 open Driver
@@ -11,6 +12,7 @@ def step (st : DState) (line : String) : DState × List String :=
   | "C" :: rest => (st, [handleCov rest])
   | "Q" :: rest => (st, handleQ st rest)
   | "T" :: rest => (st, handleT rest)
+  | "L" :: rest => (st, handleCli rest)
   | "cfg" :: rest => (handleCfg st rest, [])
   | _ => (st, ["bad-op"])
 
